@@ -213,3 +213,12 @@ func UFBytes64(fn string, s string) []byte { return make([]byte, 8) }
 // OtherThreadHolds marks a *sync.Mutex as currently held by another thread that will release it:
 // Lock then waits (and succeeds), TryLock fails.
 func OtherThreadHolds(mutex interface{}) {}
+func LiveBytes() int { return 0 }
+
+// KeepSymbolicBounds: slices of engine-tracked buffers keep symbolic bounds symbolic instead of being
+// case-split (for models in which only sizes matter, not contents).
+func KeepSymbolicBounds(on bool) {}
+
+// LiveBytesExcluding: like LiveBytes, not counting what is reachable from the given roots (the modelled
+// disk, harness bookkeeping).
+func LiveBytesExcluding(roots ...interface{}) int { return 0 }
